@@ -203,7 +203,7 @@ func genBech32() {
 	// Encode and Decode write into dst, which has the element type of src: they are translated under the assumption
 	// that the two arrays do not overlap.  The package is internal to pkg/bech32, so checkFreshDst sees every caller.
 	checkFreshDst(p, "base32", "Encode", "Decode")
-	g.raw("namespace base32\n" + translateLoopFuncs(b, "EncodedLen", "DecodedLen", "Encode!disjoint", "Decode!disjoint") + "end base32\n")
+	g.raw(translateLoopFuncsNS(b, "base32", "EncodedLen", "DecodedLen", "Encode!disjoint", "Decode!disjoint"))
 	for _, n := range []string{"Encode", "Decode", "EncodedLen", "DecodedLen"} {
 		pinnedFns[b.method(n)] = true
 	}
@@ -213,7 +213,16 @@ func genBech32() {
 	for _, n := range charFns {
 		pinnedFns[p.method(n)] = true
 	}
-	g.src(p, "Encode", "Decode", "isValidHRPChar", "validateCase", "firstUpper", "firstLower")
+	// bech32.go itself translated as code (tied to the model in Iota/Tie/Bech32ApiCode.lean); not pinned by text.  What the
+	// translation does not define is a PARAMETER of the generated Encode / Decode: strings.ToLower, strings.ToUpper and
+	// strings.LastIndex (the tie states what it assumes about them: ASCII case mapping on ASCII strings — they are only
+	// reached after the input has been checked to be ASCII — and the last occurrence of a byte), and the two tables of the
+	// package variable `charset` (the tie instantiates them with what the generated newEncoding returns).
+	apiFns := []string{"isValidHRPChar", "firstUpper", "firstLower", "validateCase", "Encode", "Decode"}
+	g.raw(translateLoopFuncsNS(p, "api", apiFns...))
+	for _, n := range apiFns {
+		pinnedFns[p.method(n)] = true
+	}
 	g.rest(b, "base32")
 	g.rest(p, "bech32")
 	g.write()
